@@ -86,6 +86,7 @@ type SpecFunc struct {
 	Rec     bool
 	Decr    Expr
 	Uninterp bool // declared only (no body)
+	Heap    bool // reads the heap: the components it reads are implicit parameters (taken from the state it is applied in)
 	Pkg     string
 	Line    string
 }
@@ -270,9 +271,16 @@ func ParseContractLines(pkg, path string, lines []rawLine) *ContractFile {
 			// spec func [rec] name(params) type = expr   |  spec func name(params) type   (uninterpreted)
 			t := strings.TrimSpace(strings.TrimPrefix(d.text, "func"))
 			sf := &SpecFunc{Pkg: pkg, Line: d.loc}
-			if strings.HasPrefix(t, "rec ") {
-				sf.Rec = true
-				t = strings.TrimSpace(t[4:])
+			for {
+				if strings.HasPrefix(t, "rec ") {
+					sf.Rec = true
+					t = strings.TrimSpace(t[4:])
+				} else if strings.HasPrefix(t, "heap ") {
+					sf.Heap = true
+					t = strings.TrimSpace(t[5:])
+				} else {
+					break
+				}
 			}
 			op := strings.Index(t, "(")
 			cp := matchParen(t, op)
